@@ -5,6 +5,11 @@ VERIF = os.path.dirname(os.path.dirname(os.path.abspath(__file__)))
 ALL = [f"C{i:02d}" for i in range(1, 21)]
 
 CHECKS = {
+ "C09": dict(
+   category="model_checking", design_ref="DESIGN.md §4 C09, §8",
+   text="TLC checks exhaustively (tiny blocks, all histories of alloc/release/shrink/reset up to depth 5 quick / 7 thorough, padding and immediate-release variants) that the transcribed pool algorithm JitAllocImpl (bit vectors, search window, largest-unused cache, empty/dirty/incremental flags, cursor, block doubling) refines the contract JitAlloc.tla and keeps its structural invariants. The real allocator is bound to the same contract by trace validation: TLC-simulated histories scaled to real block sizes and long seeded random histories over all option sets x granularities 64/128/256 x block sizes are executed (ASan/UBSan build); every recorded call must be a contract step: spans non-null, granule aligned, >= request, disjoint in rx and rw view, contents intact at every step, rw/rx aliasing, query exact, foreign pointers refused, statistics exact, fill pattern on freed memory, released memory reusable without a new block, retention policy after release-all/reset, is_initialized.",
+   note="Trusted: TLC, the contract spec, harness projection (public API, mincore, byte comparisons reported as booleans, order-preserving address compression). Large pages/hardened runtime not available in the sandbox. OutOfMemory from the OS is tolerated (counted).",
+   technique="TLA+ contract + refinement of impl-shaped spec (TLC) + trace validation of recorded executions"),
  "C19": dict(
    category="model_checking", design_ref="DESIGN.md §4 C19, §8",
    text="TLC proves (exhaustively, all add-histories up to depth 5/6 over a colliding alphabet) that the transcribed algorithm ConstPoolImpl refines the contract ConstPool.tla; the real ConstPool is bound to the same contract by trace validation: every model behaviour of depth 3, TLC-simulated longer behaviours and seeded random histories are executed on the real code (ASan/UBSan build) and each recorded trace must be a behaviour of the contract (aligned, stable, deduplicated offsets; image bytes exact; gaps zero; size/alignment cover everything).",
